@@ -37,6 +37,7 @@ type Contract struct {
 	NoSafety bool
 	Replay   string
 	DynTypes []string // result's possible dynamic types (for interface-typed results)
+	Effects  []Effect
 	File     string
 	Line     int
 	used     bool
@@ -54,11 +55,20 @@ func (c *Contract) frame(g *Gen) *Frame {
 		case m == "nothing":
 		case strings.HasPrefix(m, "@"):
 			fr.facts[m[1:]] = true
+		case strings.HasPrefix(m, "$"):
+			fr.facts[m] = true
 		default:
 			fr.arrs[m] = true
 		}
 	}
 	return fr
+}
+
+// Effect: ghost accumulator update performed by every call of the function: $Var += Expr (over the callee's parameters, pre-state).
+type Effect struct {
+	Var  string
+	Expr *Expr
+	Text string
 }
 
 type Macro struct {
@@ -95,7 +105,7 @@ type lexer struct {
 	pos  int
 }
 
-var tokRe = regexp.MustCompile(`\s*(<==>|==>|&&|\|\||==|!=|<=|>=|::|[A-Za-z_][A-Za-z0-9_$]*|[0-9]+|"(?:[^"\\]|\\.)*"|#[A-Za-z_][A-Za-z0-9_.]*|@[A-Za-z_][A-Za-z0-9_]*|[-+*/%!<>()\[\].,?:])`)
+var tokRe = regexp.MustCompile(`\s*(<==>|==>|&&|\|\||==|!=|<=|>=|::|[A-Za-z_][A-Za-z0-9_$]*|[0-9]+|"(?:[^"\\]|\\.)*"|#[A-Za-z_][A-Za-z0-9_.]*|@[A-Za-z_][A-Za-z0-9_]*|\$[A-Za-z_][A-Za-z0-9_]*|[-+*/%!<>()\[\].,?:&])`)
 
 func lex(s string) (*lexer, error) {
 	var toks []string
@@ -297,6 +307,13 @@ func (l *lexer) parseUnary() (*Expr, error) {
 			return nil, err
 		}
 		return &Expr{Op: "deref", X: x}, nil
+	case "&":
+		l.next()
+		x, err := l.parseUnary()
+		if err != nil {
+			return nil, err
+		}
+		return &Expr{Op: "addr", X: x}, nil
 	}
 	return l.parsePostfix()
 }
@@ -399,6 +416,8 @@ func (l *lexer) parseAtom() (*Expr, error) {
 		return &Expr{Op: "ghost", Name: t}, nil
 	case t[0] == '@':
 		return &Expr{Op: "fact", Name: t[1:]}, nil
+	case t[0] == '$':
+		return &Expr{Op: "gvar", Name: t}, nil
 	case identRe.MatchString(t):
 		return &Expr{Op: "ident", Name: t}, nil
 	}
@@ -487,7 +506,7 @@ func (g *Gen) loadContractFile(path, pkgPath string, pkg *types.Package) error {
 			if err != nil {
 				return nil, fmt.Errorf("%s:%d: %v", path, l.line, err)
 			}
-			c.Expr = g.expandMacros(e, 0)
+			c.Expr = e
 			return c, nil
 		}
 		switch kw {
@@ -537,7 +556,7 @@ func (g *Gen) loadContractFile(path, pkgPath string, pkg *types.Package) error {
 			if err != nil {
 				return fmt.Errorf("%s:%d: %v", path, l.line, err)
 			}
-			lastClause.Cover = g.expandMacros(e, 0)
+			lastClause.Cover = e
 		case "loop":
 			if cur == nil {
 				return fmt.Errorf("%s:%d: loop outside func", path, l.line)
@@ -578,6 +597,16 @@ func (g *Gen) loadContractFile(path, pkgPath string, pkg *types.Package) error {
 			cur.Inline = true
 		case "nosafety":
 			cur.NoSafety = true
+		case "effect":
+			m := regexp.MustCompile(`^(\$[A-Za-z_][A-Za-z0-9_]*)\s*\+=\s*(.*)$`).FindStringSubmatch(rest)
+			if m == nil || cur == nil {
+				return fmt.Errorf("%s:%d: effect $var += expr", path, l.line)
+			}
+			e, err := parseExpr(m[2])
+			if err != nil {
+				return fmt.Errorf("%s:%d: %v", path, l.line, err)
+			}
+			cur.Effects = append(cur.Effects, Effect{Var: m[1], Expr: e, Text: rest})
 		case "replay":
 			cur.Replay = rest
 		case "dyntypes":
@@ -610,7 +639,10 @@ func (g *Gen) loadContractFile(path, pkgPath string, pkg *types.Package) error {
 					ps = append(ps, p)
 				}
 			}
-			g.macros[m[1]] = &Macro{Params: ps, Body: g.expandMacros(e, 0)}
+			g.macros[pkgPath+"::"+m[1]] = &Macro{Params: ps, Body: e}
+			if _, dup := g.macros[m[1]]; !dup {
+				g.macros[m[1]] = &Macro{Params: ps, Body: e}
+			}
 		case "smt":
 			g.userSMT = append(g.userSMT, rest)
 			if m := regexp.MustCompile(`^\((?:define-fun|define-fun-rec|declare-fun)\s+(\S+)\s+\(([^)]*(?:\([^)]*\)[^)]*)*)\)\s+(\S+)`).FindStringSubmatch(rest); m != nil {
